@@ -41,6 +41,15 @@ EXC_CLASSES = {
     'TypeError': TypeError,
     'UnicodeError': UnicodeError,
     'IndexError': IndexError,
+    'ImportError': ImportError,
+    'ModuleNotFoundError': ModuleNotFoundError,
+    'OSError': OSError,
+    'LookupError': LookupError,
+    'NotImplementedError': NotImplementedError,
+    'ZeroDivisionError': ZeroDivisionError,
+    'StopIteration': StopIteration,
+    'EOFError': EOFError,
+    'NameError': NameError,
 }
 
 
